@@ -511,6 +511,11 @@ where
 			return Err(error);
 		}
 
+		// an empty window is serialized with a zero index: restore it as it was
+		if buf.is_empty() && index == 0 {
+			return Ok(Self::empty());
+		}
+
 		if (buf.len() as PeriodType) <= index {
 			let error =
 				SerdeError::custom(format!("Index {index} is out of window's buffer bounds."));
